@@ -23,7 +23,8 @@ RULE = ("Line-accounting monitor G3 (scanner hands out 1,2,3,.. once each then o
         "simulator) — plus double arrangements (a second tag run while the first is still being consumed); (b) the same "
         "arrangements at token-kind level through the real Parser.parse with stub scanner/matcher; (c) W2 rendered and W4 noisy "
         "documents; (d) token listings: TokenFormatterBuilder output vs the golden .tokens files and, for generated documents, vs a "
-        "listing rebuilt from the tokens a recording builder saw in a normal parse.  Distinct = hash of the source / kind sequence.")
+        "listing rebuilt from the tokens a recording builder saw in a normal parse.  Distinct = hash of the source / kind sequence."
+        " Also: a reused-parser family (perturbing predecessors, also abandoned parses), threshold documents (look-ahead windows, tables, tag/comment/blank runs of n = 9..1025 lines), every fourth parse from a TokenScanner object, every other listing from one TokenFormatterBuilder reused for the shard, scripts/generate_tokens.py on single and several files.")
 ASSUMPTIONS = ["lines are counted by LF only", "the simulator's transitions come from the sibling parsers"]
 DECIDING = ["G3.evaluated", "G3q.evaluated", "arrangements_text", "arrangements_kinds", "listings_compared", "Parser.read_token.queue_pops"]
 G_DECIDING = {"G3", "G3q"}
